@@ -507,6 +507,17 @@ def call_sequences(ctx, d, codegen, algorithms, mods):
         a, b = snapshot(dsame), snapshot(dfresh)
         stale = [k for k in b if a.get(k) != b[k]]
         ctx.check("regeneration_replaces_earlier_output", gname, bool(ok) and not stale, {"generator": gname, "stale_or_missing_files": stale, "destination": sorted(a), "fresh": sorted(b)})
+        # the destination given as a pathlib.Path (the generators convert it themselves) produces the same files
+        if gname.startswith("algorithms."):
+            continue  # its dest_dir is documented and used as a string (dest_dir + os.path.sep); a Path is not an accepted form there
+        import pathlib
+        dpath = os.path.join(d, "path_dest")
+        shutil.rmtree(dpath, ignore_errors=True)
+        with quiet():
+            okp = lib_call(ctx, "generate_code", gname + "[Path]", lambda: (g2(pathlib.Path(dpath)), True)[1], not_implemented_ok=False)
+        c = snapshot(dpath)
+        ctx.check("path_destination_same_output", gname, bool(okp) and c.keys() == b.keys() and all(c[k_] == b[k_] for k_ in b), {"generator": gname, "files_with_Path": sorted(c), "files_with_str": sorted(b)})
+        shutil.rmtree(dpath, ignore_errors=True)
         shutil.rmtree(dsame, ignore_errors=True)
         shutil.rmtree(dfresh, ignore_errors=True)
     ctx.count("generator_call_histories", len(gens) + len(regen))
